@@ -27,6 +27,17 @@ def out_dirs(pkg, root="/w"):
     return outs
 
 
+class extra_seed(dict):
+    """A view for add_clutter: looks like the rendered tree, collects what is added in a separate dict."""
+    def __init__(self, base, sink):
+        super().__init__(base)
+        self.sink = sink
+
+    def __setitem__(self, k, v):
+        self.sink[k] = v
+        super().__setitem__(k, v)
+
+
 def make_case(seed, i):
     rng = M.derive(seed, "c11", i)
     cfg = M.GenConfig.swarm(rng.fork("cfg"))
@@ -97,6 +108,14 @@ def make_case(seed, i):
             files["/w/pkg/_package.yml"] = files["/w/pkg/_package.yml"].replace("imports:\n", "imports:\n  - ../no_such_dir\n", 1)
             what = "import of a missing directory"
     desc["invalidation"] = what
+    # what else package directories hold: hidden files, documentation, editor settings (the same in both trees)
+    cl = rng.fork("clutter")
+    extra = {}
+    desc["other_files_in_package_dirs"] = len(M.add_clutter(extra_seed(valid_files, extra), cl))
+    for q, t in extra.items():
+        valid_files.setdefault(q, t)
+        if files is not None and any(f.startswith(q.rsplit("/", 1)[0].split("/.")[0].split("/docs")[0] + "/") for f in files):
+            files.setdefault(q, t)
     return desc, pkg, valid_files, files
 
 
